@@ -1,4 +1,5 @@
 import MageModel.Props.C01
+import MageModel.Deps.Live
 /-!
 # C02 — Deps calls return only after all their dependencies have finished
 Every program, every schedule.  `log = later ++ e :: earlier` (newest first).
@@ -44,6 +45,52 @@ theorem no_start_after_end (p : Prog) (roots : List Nat) (sched : List Agent)
   have hp := starts_pos_of_mem hmem
   omega
 
+private theorem split_cases {α} : ∀ (a c : List α) (x y : α) (b d : List α), a ++ x :: b = c ++ y :: d →
+    (∃ m, c = a ++ x :: m ∧ b = m ++ y :: d) ∨ (a = c ∧ x = y ∧ b = d) ∨ (∃ m, a = c ++ y :: m ∧ d = m ++ x :: b)
+  | [], [], x, y, b, d, h => by simp at h; exact Or.inr (Or.inl ⟨rfl, h.1, h.2⟩)
+  | [], c0 :: c, x, y, b, d, h => by
+    simp at h; obtain ⟨h1, h2⟩ := h; subst h1
+    exact Or.inl ⟨c, by simp, h2⟩
+  | a0 :: a, [], x, y, b, d, h => by
+    simp at h; obtain ⟨h1, h2⟩ := h; subst h1
+    exact Or.inr (Or.inr ⟨a, by simp, h2.symm⟩)
+  | a0 :: a, c0 :: c, x, y, b, d, h => by
+    simp at h; obtain ⟨h1, h2⟩ := h; subst h1
+    rcases split_cases a c x y b d h2 with ⟨m, hm1, hm2⟩ | ⟨h3, h4, h5⟩ | ⟨m, hm1, hm2⟩
+    · exact Or.inl ⟨m, by simp [hm1], hm2⟩
+    · exact Or.inr (Or.inl ⟨by simp [h3], h4, h5⟩)
+    · exact Or.inr (Or.inr ⟨m, by simp [hm1], hm2⟩)
+
+/-- **… together with everything that dependency itself waited on**: when a call ends, every call that a dependency
+it reached had made as owner has ended *before*, and everything *that* call reached has stopped before — so the
+barrier extends down the whole dependency tree (apply repeatedly). -/
+theorem barrier_transitive (p : Prog) (roots : List Nat) (sched : List Agent)
+    (later earlier : List Event) (e : Event) (c : CallId) (reached : List Key)
+    (hlog : (reach p roots sched).log = later ++ e :: earlier)
+    (he : e = .ret c reached ∨ ∃ code msgs, e = .pan c reached code msgs)
+    (k : Key) (hk : k ∈ reached)
+    (e' : Event) (c' : CallId) (reached' : List Key) (hown : c'.owner = .key k)
+    (he' : e' = .ret c' reached' ∨ ∃ code msgs, e' = .pan c' reached' code msgs)
+    (hmem : e' ∈ (reach p roots sched).log) :
+    e' ∈ earlier ∧ ∀ k' ∈ reached', ∃ r, Event.stop k' r ∈ earlier := by
+  obtain ⟨r, hstop⟩ := barrier p roots sched later earlier e c reached hlog he k hk
+  obtain ⟨pre, post, hsplit⟩ := mem_split hmem
+  have hlive : LiveEvent e' post := by
+    have := reach_live p roots sched
+    rw [hsplit] at this
+    exact (LiveLog.suffix this).1
+  have hnot : Event.stop k r ∉ post := by
+    rcases he' with he' | ⟨code, msgs, he'⟩ <;> subst he' <;> exact hlive k hown r
+  rw [hlog] at hsplit
+  rcases split_cases later pre e e' earlier post hsplit with ⟨m, hm1, hm2⟩ | ⟨_, _, h5⟩ | ⟨m, _, hm2⟩
+  · refine ⟨by rw [hm2]; simp, ?_⟩
+    intro k' hk'
+    have hlog' : (reach p roots sched).log = pre ++ e' :: post := by rw [hlog, hsplit]
+    obtain ⟨r', hr'⟩ := barrier p roots sched pre post e' c' reached' hlog' he' k' hk'
+    exact ⟨r', by rw [hm2]; exact List.mem_append_right _ (List.mem_cons_of_mem _ hr')⟩
+  · exact absurd (h5 ▸ hstop) hnot
+  · exact absurd (by rw [hm2]; exact List.mem_append_right _ (List.mem_cons_of_mem _ hstop)) hnot
+
 /-- the stop of a dependency is logged once its once-cell is done, and the cell never changes afterwards -/
 theorem stopped_is_done (p : Prog) (roots : List Nat) (sched : List Agent) (k : Key) (r : Res)
     (h : Event.stop k r ∈ (reach p roots sched).log) : (reach p roots sched).cell k = .done r r :=
@@ -68,5 +115,18 @@ end Mutant
 
 example : Event.pan ⟨.root 0, 0⟩ [1, 2] 1 ["boom"] ∈
     (reach Mutant.prog [0] (Mutant.sched ++ [.owner (.key 2), .site (.root 0) 1, .owner (.root 0)])).log := by decide
+
+/-! non-vacuity of `barrier_transitive`: a root needing 1, which needs 2 — both calls end, in the order the theorem says -/
+namespace Nested
+def prog : Prog := fun o => match o with
+  | .root 0 => ⟨[⟨false, [1]⟩], .ok⟩
+  | .key 1 => ⟨[⟨false, [2]⟩], .ok⟩
+  | _ => ⟨[], .ok⟩
+def sched : List Agent :=
+  [.owner (.root 0), .site (.root 0) 0, .owner (.key 1), .site (.key 1) 0, .owner (.key 2), .site (.key 1) 0,
+   .owner (.key 1), .owner (.key 1), .site (.root 0) 0, .owner (.root 0)]
+example : Event.ret ⟨.root 0, 0⟩ [1] ∈ (reach prog [0] sched).log ∧ Event.ret ⟨.key 1, 0⟩ [2] ∈ (reach prog [0] sched).log := by
+  decide
+end Nested
 
 end MageModel.Props.C02
